@@ -159,9 +159,9 @@ CHECKS = {
     "C13": {
         "level": "exploration", "floor": 20,
         "rule": "at each commit -> Some(A): |A| = 1, the adapter log shows exactly one new block, its parsed parents == the heads observed just before, index > every parent's, heads after == A, info as passed. At every observation: applied set (hook) ancestor-closed, heads == applied blocks not named as parent by an applied block "
-                "== reference model heads; get_delta's info/parents/packs == what the reference parses from the raw block on every replica holding it. Branching histories with 3-4 replicas, merges of several heads, commits after time travel, partial delivery. A dedicated scenario redoes, from the past, exactly the edit and metadata of an existing pack-less child block, so that the commit reproduces that block byte for byte: it must still become the only head and the next commit must build on it. non-trivial = a commit had >=2 parents." + DISTINCT,
+                "== reference model heads; get_delta's info/parents/packs == what the reference parses from the raw block on every replica holding it. Branching histories with 3-4 replicas, merges of several heads, commits after time travel, partial delivery. A dedicated scenario redoes, from the past, exactly the edit and metadata of an existing pack-less child block, so that the commit reproduces that block byte for byte: it must still become the only head and the next commit must build on it. The deep-nesting scenarios of C03 run here for their metadata oracle (metadata nested up to 430 levels, hostile strings as keys, extreme numbers: get_delta on a reopened replica returns it unchanged). non-trivial = a commit had >=2 parents." + DISTINCT,
         "assumptions": ASSUME_COMMON,
-        "jobs": [engine("graph", "graph", "C13", (1600, 60000)), engine("conflict", "conflict", "C13", (480, 30000)), engine("graph-8-replicas", "graph", "C13", (64, 3200), args={"reps": 8, "steps": 100}), mode("verbatim-redo", "c13redo", (320, 16000))],
+        "jobs": [engine("graph", "graph", "C13", (1600, 60000)), engine("conflict", "conflict", "C13", (480, 30000)), engine("graph-8-replicas", "graph", "C13", (64, 3200), args={"reps": 8, "steps": 100}), mode("verbatim-redo", "c13redo", (320, 16000)), mode("deep-metadata", "c03deep", (320, 16000))],
     },
     "C14": {
         "level": "exploration", "floor": 20,
